@@ -5,8 +5,14 @@
 package ntlm
 
 //@ define dbPassword(c, u) = dyn(c.h.Database, ptr(database.Config)).users[u].Password
+// a server session checks at most one response (go-ntlm keeps the keys of the first user it checked)
+//@ define sessOK(c) = c.session == nil || !pamUsed(c.session)
 // representation invariant of NTLMAuth: every cached value is a non-nil context that belongs to this handler
-//@ define cacheInv(h) = h.contextCache != nil && h.contextCache.cache != nil && (forall k string :: cacheHas(h.contextCache.cache, k) ==> typeIs(cacheVal(h.contextCache.cache, k), ptr(ntlmContext)) && dyn(cacheVal(h.contextCache.cache, k), ptr(ntlmContext)) != nil && dyn(cacheVal(h.contextCache.cache, k), ptr(ntlmContext)).h == h)
+//@ define ctxOf(h, k) = dyn(cacheVal(h.contextCache.cache, k), ptr(ntlmContext))
+//@ define cacheInvA(h) = h.contextCache != nil && h.contextCache.cache != nil
+//@     && (forall k string :: cacheHas(h.contextCache.cache, k) ==> typeIs(cacheVal(h.contextCache.cache, k), ptr(ntlmContext)) && ctxOf(h, k) != nil && ctxOf(h, k).h == h && sessOK(ctxOf(h, k)) && (ctxOf(h, k).session == nil || allocated(ctxOf(h, k).session)))
+//@ define cacheInvB(h) = (forall k1 string :: forall k2 string :: cacheHas(h.contextCache.cache, k1) && cacheHas(h.contextCache.cache, k2) && ctxOf(h, k1) != ctxOf(h, k2) && ctxOf(h, k1).session != nil ==> ctxOf(h, k1).session != ctxOf(h, k2).session)
+//@ define cacheInv(h) = cacheInvA(h) && cacheInvB(h)
 
 //@ func NewNTLMAuth
 //@   ensures[C14] inv: result != nil && cacheInv(result) && result.Database == database
@@ -15,8 +21,12 @@ package ntlm
 //@ func (*ntlmContext).authenticate
 //@   requires[C10] wf: c != nil && r != nil && am != nil && c.h != nil && c.h.Database != nil && dyn(c.h.Database, ptr(database.Config)) != nil
 //@   requires !r.Authenticated
-//@   assigns r.Authenticated, r.Username, #uiSession, #uiUser, #uiPass, #pamSession, #pamMsg, #pamOK
-//@   ensures[C14] proof: r.Authenticated ==> old(c.session) != nil && #pamOK && #pamSession == c.session && #pamMsg == am && #uiSession == c.session
+//@   requires[C14] freshSession: sessOK(c)
+//@   assigns c.session, r.Authenticated, r.Username, #uiSession, #uiUser, #uiPass, #pamSession, #pamMsg, #pamOK, region(map:Iface:ghost.pamUsed)
+//@   ensures[C14] proof: r.Authenticated ==> old(c.session) != nil && #pamOK && #pamSession == old(c.session) && #pamMsg == am && #uiSession == old(c.session)
+//@   ensures[C14] oneResponsePerSession: sessOK(c) && (c.session == nil || c.session == old(c.session))
+//@   ensures[C14] otherSessions: forall s iface :: s != old(c.session) ==> pamUsed(s) == old(pamUsed(s))
+//@   onpanic ensures[C14] otherSessionsOnPanic: forall s iface :: s != old(c.session) ==> pamUsed(s) == old(pamUsed(s))
 //@   ensures[C14] user: r.Authenticated ==> r.Username == #uiUser && #uiPass == dbPassword(c, #uiUser) && #uiPass != ""
 //@   ensures[C14] never: old(c.session) == nil ==> !r.Authenticated && result != nil
 // go-ntlm may panic on the message (odd-length user name, malformed response): the panic escapes
@@ -29,20 +39,25 @@ package ntlm
 //@   assigns c.session, r.NtlmMessage, #negSession, #chalSession
 //@   ensures[C14] challenge: result == nil ==> c.session != nil && #chalSession == c.session && #negSession == c.session && c.session != old(#chalSession)
 //@   ensures[C14] noauth: r.Authenticated == old(r.Authenticated)
+//@   ensures[C14] freshSession: sessOK(c) && (c.session == nil || fresh(c.session))
 //@   nopanic[C10]
 
 //@ func (*ntlmContext).Authenticate
 //@   requires[C10] wf: c != nil && r != nil && c.h != nil && c.h.Database != nil && dyn(c.h.Database, ptr(database.Config)) != nil
 //@   requires !r.Authenticated
-//@   assigns c.session, r.NtlmMessage, r.Authenticated, r.Username, #uiSession, #uiUser, #uiPass, #pamSession, #pamMsg, #pamOK, #negSession, #chalSession
-//@   ensures[C14] needsSession: r.Authenticated ==> old(c.session) != nil && c.session == old(c.session) && #pamOK && #pamSession == c.session && #uiSession == c.session
+//@   requires[C14] freshSession: sessOK(c)
+//@   assigns c.session, r.NtlmMessage, r.Authenticated, r.Username, #uiSession, #uiUser, #uiPass, #pamSession, #pamMsg, #pamOK, #negSession, #chalSession, region(map:Iface:ghost.pamUsed)
+//@   ensures[C14] needsSession: r.Authenticated ==> old(c.session) != nil && #pamOK && #pamSession == old(c.session) && #uiSession == old(c.session)
+//@   ensures[C14] oneResponsePerSession: sessOK(c) && (c.session == nil || c.session == old(c.session) || fresh(c.session))
+//@   ensures[C14] otherSessions: forall s iface :: s != old(c.session) ==> pamUsed(s) == old(pamUsed(s))
 //@   ensures[C14] user: r.Authenticated ==> r.Username == #uiUser && #uiPass == dbPassword(c, #uiUser) && #uiPass != ""
 //@   nopanic[C10]
 
 //@ func (*NTLMAuth).getContext
 //@   requires[C10] wf: h != nil && cacheInv(h)
 //@   assigns region(map:Str:gocache), region(gocache)
-//@   ensures[C14] fresh: result != nil && (fresh(result) ==> result.session == nil) && result.h == h
+//@   ensures[C14] fresh: result != nil && (fresh(result) ==> result.session == nil) && result.h == h && sessOK(result)
+//@   ensures[C14] cached: cacheHas(h.contextCache.cache, session) && ctxOf(h, session) == result
 //@   ensures[C14] inv: cacheInv(h)
 //@   nopanic[C10]
 
@@ -53,6 +68,8 @@ package ntlm
 //@   ensures[C14] emptyMessage: message.NtlmMessage == "" ==> result1 != nil && !result0.Authenticated
 //@   ensures[C14] proof: result0 != nil && (result0.Authenticated ==> #pamOK && #uiPass != "" && result0.Username == #uiUser && #uiSession == #pamSession)
 //@   ensures[C14] inv: cacheInv(h)
+//@   ensures[C14] invA: cacheInvA(h)
+//@   ensures[C14] invB: cacheInvB(h)
 //@   nopanic[C10]
 
 //@ func (*NTLMAuth).removeContext
